@@ -226,7 +226,7 @@ theorem steps_ifBodies (g : Globals) : ∀ (b : IfBodies) (lEnd : Name) (ll : Op
     Steps s (ifBodies g b lEnd ll s).1
   | .ifb l, lEnd, ll, s => by unfold ifBodies; exact steps_ifBody g l lEnd ll false s
   | .loopb l, lEnd, some (lb, le), s => by unfold ifBodies; exact steps_ifLoopBody g l lEnd lb le false false false s
-  | .loopb _, _, none, s => by unfold ifBodies; exact Steps.single (Step.e (EStep.setPanic _ _))
+  | .loopb _, _, none, s => by unfold ifBodies; exact Steps.single (Step.setPanic _ _)
 theorem steps_ifBody (g : Globals) : ∀ (l : List IfBodyStmt) (lEnd : Name) (ll : Option (Name × Name)) (rc : Bool) (s : St),
     Steps s (ifBody g l lEnd ll rc s).1
   | [], _, _, _, s => by unfold ifBody; exact Steps.refl _
